@@ -208,11 +208,13 @@ def corpora_rules(sl):
     """one corpus with two document sets: targets (own, corpus default, single index / data stream default), inherited base-url and
     action-and-meta-data flags, sizes and counts are exactly those written; a missing mandatory target is rejected"""
     streams = sl["streams"]
-    n_targets = concrete(fresh_int("number_of_indices_or_data_streams", 1, 2))
+    # 0: the track declares neither indices nor data streams (they come from templates / a create-index operation / exist already)
+    n_targets = concrete(fresh_int("number_of_indices_or_data_streams", 0, 2))
     key = "target-data-stream" if streams else "target-index"
     names = ["t%d" % i for i in range(n_targets)]
     spec = {"operations": [{"name": "force-merge", "operation-type": "force-merge"}], "schedule": [{"operation": "force-merge"}]}
-    spec["data-streams" if streams else "indices"] = [{"name": n} for n in names]
+    if names:
+        spec["data-streams" if streams else "indices"] = [{"name": n} for n in names]
     corpus = {"name": "corpus", "documents": []}
     corpus_target = "corpus-target" if bool(fresh_bool("corpus_has_default_target")) else None
     if corpus_target:
